@@ -237,6 +237,9 @@ func compareExpr(w *run.Worker, st *c01State, src string, tree gen.Expr, sqlExpr
 			ctx.Env[keyPrefix+l.name] = doms[i][idx[i]]
 		}
 		want := ctx.PQL(tree)
+		if want.K == sem.Err && strings.HasPrefix(want.S, "unknown column") {
+			panic("harness: reference interpreter met " + want.S + " in " + src)
+		}
 		if want.K == sem.Unspec {
 			skipped++
 		} else {
